@@ -153,6 +153,29 @@ def dnameTarget (q : Name) (dnames : List (Name × Name)) : Option Name :=
 /-- the name the exact validators deny: the question name, or its DNAME rewriting. -/
 def proofName (q : Name) (dnames : List (Name × Name)) : Name := (dnameTarget q dnames).getD q
 
+/-! ### which RRSIG may vouch for which RRset (`signatureMatchesRRset`, label rule) -/
+
+/-- labels an RRSIG over `owner` counts when the RRset is NOT an expansion:
+the owner's labels, a leading `*` not counted (RFC 4034 §3.1.3). -/
+def effectiveLabels (owner : Name) : Nat :=
+  if owner.getLast? = some star then owner.length - 1 else owner.length
+
+/-- `wildcardExpanded`: the signature can only verify as a wildcard expansion. -/
+def wildcardExpanded (owner : Name) (sigLabels : Nat) : Bool := sigLabels < effectiveLabels owner
+
+/-- the name-and-label part of `signatureMatchesRRset` (class / type / owner
+equality of RRSIG and RRset are the harness's by construction): the owner has
+at least `Labels` labels, lies in the signer zone, and — for NSEC / NSEC3 —
+the RRset is not a wildcard expansion. -/
+def signatureMatches (signer owner : Name) (sigLabels typeCovered : Nat) : Bool :=
+  owner.length ≥ sigLabels && nameInZone owner signer &&
+  !((typeCovered == tNSEC || typeCovered == 50) && wildcardExpanded owner sigLabels)
+
+/-- the owner name the signature was actually computed over (RFC 4035 §5.3.2):
+`*.<last Labels labels>` when the RRSIG counts fewer labels than the owner. -/
+def signedOwner (owner : Name) (sigLabels : Nat) : Name :=
+  if sigLabels < owner.length then owner.take sigLabels ++ [star] else owner
+
 /-! ### wildcard-expanded answers (wildcard.go) -/
 
 /-- one RRSIG of the answer section: owner name and its Labels field. -/
